@@ -15,6 +15,12 @@ CHECKS = {
             "dynamic lookup and completeness are enumerated; a table of operators is executed eagerly with defaults omitted against a bare node on ORT. "
             "Exhaustive over the finite registry, so exploration with exhaustive=true is the right level.",
             "Trusts onnx.defs of the installed onnx as schema ground truth and ORT for the execution sample.", "DESIGN.md §3 C17"),
+    "C16": ("exploration", "runtime monitor: sentinel arguments bound through the exporter's own binder / Python call binding, landing sites recorded; exhaustive over the registry",
+            "Every (qualified name, function) pair from get_torchlib_ops() is resolved with the exporter's _get_overload and its ATen schema arguments, as tagged "
+            "sentinels, are bound the way the exporter binds them; the monitor records where each sentinel lands and the oracle applies the rules of the property "
+            "sentence (tensor->input, non-tensor->accepting parameter, nothing required unbound, only the listed arguments dropped). Registration is observed in a "
+            "fresh subprocess with Registry.register wrapped; scripted functions go through onnx.checker.check_function and the independent walker. Finite registry, enumerated completely.",
+            "Trusts the installed PyTorch's ATen schemas and exporter binder; entries of namespaces not installed (torchvision) are inconclusive.", "DESIGN.md §3 C16"),
 }
 
 NOT_BUILT_REASON = "check not built yet in this session (work in progress; see DESIGN.md §3)"
